@@ -22,7 +22,7 @@ PROPS = {
     "C03": {"suites": ["ns", "fat", "names", "fsmodel"],
             "rule": "after every completed mutating call (and after close) a copy of the device is mounted by a fresh instance (lazy and eager) and walked; "
                     "compared with the live walk (names, kinds, sizes, contents, times)"},
-    "C04": {"suites": ["ns", "fat", "volume", "fsmodel"],
+    "C04": {"suites": ["ns", "fat", "volume", "fsmodel", "io"],
             "rule": "closed images of every history judged by the independent checker (chains in range/acyclic/terminated/disjoint/length=size, leaks, FAT copies, "
                     "reserved entries); volume: allocator/follower/release vs Model.Alloc on random and structured tables"},
     "C05": {"suites": ["ns", "fat", "names"],
